@@ -476,6 +476,10 @@ def run(ctx: Ctx) -> None:
                         "depend on the option of the lists")
     tracked_type_table(ctx, "C03.R14")
     if rep.prop == "C03":
+        from .common import share_rules as _sr3
+        _sr3(ctx, "C13", "C03.R18", ["C13.R12"], "a call with literal arguments only is keyed by its arguments, not by its call site: the binder gives a *args parameter the hash of its "
+             "values whenever all of them are constants (no value at all included): the same call made from two pipelines has one signature")
+    if rep.prop == "C03":
         from .common import share_rules
         share_rules(ctx, "C09", "C03.R17", ["C09.R2"], "a path produced during the analysis is registered with the return signature of its producer - the key the store records: a reader "
                     "gets the same signature whether producer and reader are evaluated together or one after the other (prior sequence of evaluations)")
